@@ -293,6 +293,10 @@ func c01R3(p *core.Program, r *core.Report, w *core.Func) {
 				stop = append(stop, q)
 				continue
 			}
+			if name == "(*bytes.Buffer).WriteTo" && len(c.Args) == 1 && sameAlias(w, c.Args[0], src) { // buf.WriteTo(src) is io.Copy(src, buf)
+				stop = append(stop, q)
+				continue
+			}
 			passesSrc := false
 			for _, a := range c.Args {
 				if sameAlias(w, a, src) {
@@ -443,6 +447,9 @@ func c01R4(p *core.Program, r *core.Report, w *core.Func, parse *ast.CallExpr) {
 				ws = append(ws, wr{q, "imports", c})
 			case name == "io.Copy" && len(c.Args) == 2 && sameAlias(w, c.Args[0], src):
 				ws = append(ws, wr{q, "body", c})
+			case name == "(*bytes.Buffer).WriteTo" && len(c.Args) == 1 && sameAlias(w, c.Args[0], src) && recvOf(c) != nil:
+				// buf.WriteTo(src) is io.Copy(src, buf): shown with the operands of the copy
+				ws = append(ws, wr{q, "body", &ast.CallExpr{Fun: c.Fun, Lparen: c.Lparen, Args: []ast.Expr{c.Args[0], recvOf(c)}, Rparen: c.Rparen}})
 			case dest != nil && sameAlias(w, dest, src):
 				// text writes: they form the header when they precede the import block (R3 checks what they say)
 				if len(ws) > 0 && ws[len(ws)-1].kind == "header" {
